@@ -25,7 +25,7 @@ CLAIMED = {
  "C04": dict(cat="model_checking", ref="DESIGN.md 5 (C04), 3.2", text="The spec's Storable table (in TLA+) decides which 200 GET responses enter the store under each policy; TLC checks StoredIsStorable; replayed histories compare, after every origin answer, what the real store holds (presence and version) with the spec and every later request's reuse/contact with the spec.", note="forms whose two directions of the property disagree (positive max-age + past Expires, Cache-Control without a listed directive) are accepted either way", tech="TLA+ spec + TLC exhaustive check + replay judged by TLC trace validation"),
  "C05": dict(cat="model_checking", ref="DESIGN.md 5 (C05), 3.2", text="TLC checks OneFetchPerFlight / FollowersAccounted / NoOrphanFollowers over all arrival orders, answers and disconnects of 3 clients; replayed histories hold the origin so that clients pile up in one flight, disconnect leaders and followers, and TLC judges the number of origin contacts, who waits, and every client's complete verified response.", note="3 clients in the model and replays; followers are observed by goroutine wait state inside singleflight", tech="TLA+ spec + TLC exhaustive check + replay judged by TLC trace validation"),
  "C06": dict(cat="model_checking", ref="DESIGN.md 5 (C06), 3.2", text="TLC explores revalidation histories (expiry, origin version/validator changes, 304/200/other answers); in replays the origin records the conditional headers it receives, classified against every validator it ever sent and against the client's own conditionals, and TLC judges them and the 304-renew / 200-replace / relay outcome.", note="a synthesised If-Modified-Since (store time) is accepted when the origin sent no Last-Modified", tech="TLA+ spec + TLC exhaustive check + replay judged by TLC trace validation"),
- "C09": dict(cat="fault_enumeration", ref="DESIGN.md 5 (C09), 3.2", text="Faults are steps of the spec placed by TLC: eviction at any point between lookup, revalidation answer and hand-over, another client's disconnect, origin errors; each placement is replayed and every client whose origin answer was good must receive it (status and verified body); cache-level refusals (full cache, empty body, failing source) are enumerated by the CacheStore families.", note="write failures of the cache directory are not injected at proxy level", tech="TLA+ spec: fault placements generated by TLC, replayed on the real proxy, judged by TLC trace validation"),
+ "C09": dict(cat="fault_enumeration", ref="DESIGN.md 5 (C09), 3.2", text="Faults are steps of the spec placed by TLC: eviction at any point between lookup, revalidation answer and hand-over, another client's disconnect, origin errors; each placement is replayed and every client whose origin answer was good must receive it (status and verified body); store refusals are replayed end to end (empty bodies on both backends, a memory cache with no room: StoreMayRefuse in the spec) and cache-level refusals and hangs (full cache, empty body, failing source, leaked lock) are enumerated by the CacheStore families.", note="write failures of the cache directory are injected at cache level only", tech="TLA+ spec: fault placements generated by TLC, replayed on the real proxy, judged by TLC trace validation"),
  "C07": dict(cat="exploration", ref="DESIGN.md 5 (C07), 3.3", text="Bounded-exhaustive differential check against the TLA+ reference RangeSpec: every token string up to length 4/5 x 5 sizes through the real parser and slicer, outcome judged by TLC for membership in Allowed(prefix, tail, size).", note="bounded token language, function level (plus end-to-end sample when present); not a proof over all strings", tech="TLA+ reference semantics + TLC-enumerated inputs + differential run judged by TLC"),
  "C02": dict(cat="exploration", ref="DESIGN.md 5 (C02), 3.4", text="Bounded-exhaustive partition check against the TLA+ reference CacheKey: enumerated wire targets are parsed by http.ReadRequest and keyed by the real MakeFromRequest; TLC judges that keys are shared exactly as the Strict/Loose identities demand.", note="bounded target language; percent-encoding variants and ''/'/' accepted either way", tech="TLA+ reference identity + TLC-enumerated targets + partition judged by TLC"),
  "C08": dict(cat="exploration", ref="DESIGN.md 5 (C08), 3.10", text="Bounded-exhaustive differential check against the TLA+ reference Relay: TLC enumerates relay cases (methods x bodies, path/query spellings, small subsets and the full set of request and response header features, statuses incl. redirects, body kinds, gzip pass-through) on both transports; a raw-socket client drives the real proxy (plain and CONNECT+TLS with a real PrivateCA) against a recording origin, storable GETs are asked twice; TLC judges method, raw path, query, bodies, status and per-field value sequences (end-to-end fields arrive in order, hop-by-hop and Connection-nominated fields do not). The retry_on_range_416 replay family contributes the status-fidelity categories of ProxyTrace.", note="bounded vocabulary; response fields the origin did not send may be added by the proxy; two known findings (Connection: close hides nominated names inside net/http) are listed in known_findings.json", tech="TLA+ reference semantics + TLC-enumerated cases + differential run on the real proxy judged by TLC (+ TLC trace validation of the retry family)"),
